@@ -145,6 +145,26 @@ def _task(args):
                 want = expect(p)
                 if isinstance(got, str) and got != want:
                     vios.append(mkv(pgn, p, nbytes, got, want, f"public path (message.id), field {f.id} at a raw its definition rejects or reserves"))
+    # fast-packet PGNs: a message shorter than the match fields reach, in a padded first frame; the padding is not payload
+    if ds[0].fast:
+        for di, d in enumerate(ds):
+            if di % nparts != part:
+                continue
+            full = apply(0, [(f.offset, f.bits, f.match) for f in d.match_fields]).to_bytes(nbytes, "little")
+            for L in (2, 3, 4, 5):
+                short = full[:L]
+                pshort = int.from_bytes(short, "little")
+                want = expect(pshort)
+                for pad in (0xFF, 0x01, 0x84, 0x0C):
+                    fr = wire.fast_frames((di + L) % 8, short, pad)
+                    try:
+                        m = NMEA2000Decoder().decode_tcp(wire.ebyte_packet(wire.can_id(3, pgn, 9, 255), fr[0]))
+                    except Exception:  # noqa: BLE001
+                        continue
+                    st["binding"] += 1
+                    g3 = None if m is None else m.id
+                    if m is not None and m.PGN == pgn and g3 != want:
+                        vios.append(mkv(pgn, pshort, L, g3, want, f"public path, {L}-byte message in one frame padded with {pad:#04x} (message.id)"))
     # every match value with one bit flipped (a mask that is too narrow, or a comparison at the wrong offset, lets one through)
     for di, d in enumerate(ds):
         if di % nparts != part:
@@ -259,4 +279,6 @@ def replay(ctx, rep):
     want = next(iter(sel)) if sel else None
     if got != want:
         return [mkv(pgn, p, len(data), got, want, "replay")]
-    return []
+    # found through another route (frame-level entry point, padded short frame, bit flip): re-run the PGN's task
+    st, vios, _, _ = _task((pgn, 1, 0, 0, 1))
+    return [v for v in vios if v["case"]["payload_hex"] == c["payload_hex"]][:1]
